@@ -651,7 +651,12 @@ def shaped_backend():
     def diag(t):
         return STok(("diag", t.term), (min(t.shape),))
 
-    return {"diag": diag, "linalg.qr": qr, "linalg.svd": svd, "linalg.eigh": eigh, "linalg.solve": solve, "transpose": transpose,
+    def trace(t):
+        if t.ndim < 2 or t.shape[0] != t.shape[1]:
+            raise ValueError(f"trace of an abstract block of shape {t.shape}")
+        return STok(("trace", t.term), t.shape[2:])
+
+    return {"diag": diag, "trace": trace, "linalg.qr": qr, "linalg.svd": svd, "linalg.eigh": eigh, "linalg.solve": solve, "transpose": transpose,
             "reshape": reshape, "tensordot": tensordot, "matmul": matmul, "zeros": zeros, "concatenate": concatenate,
             "conj": conj, "einsum": einsum}
 
